@@ -184,6 +184,22 @@ fn test(c: &SimCase, obs: &mut Obs) -> CheckResult {
     Ok(())
 }
 
+/// The same outcome oracle on runs with scripted socket faults (failed sends, TCP address-in-use
+/// re-issues, late fatal errors): Failed / Skipped entries inside rounds.
+fn faults_test(c: &SimCase, obs: &mut Obs) -> CheckResult {
+    let log = run_trace(&c.cfg, &c.world);
+    let Some(truth) = check_outcomes(&log, obs)? else {
+        return Ok(());
+    };
+    let gaps = truth.rounds.iter().flatten().filter(|e| matches!(e, Expected::Skipped | Expected::Failed { .. })).count();
+    if gaps > 0 && truth.rounds.iter().flatten().any(|e| matches!(e, Expected::Complete { .. })) {
+        obs.class("nontrivial");
+        obs.nontrivial(&(c.cfg.cell(), gaps, truth.rounds.iter().map(Vec::len).collect::<Vec<_>>()));
+    }
+    obs.sample(json!({"cfg": c.cfg.cell(), "failed_or_skipped": gaps}));
+    Ok(())
+}
+
 pub fn check() -> PropertyCheck {
     PropertyCheck {
         id: "C01",
@@ -200,6 +216,14 @@ pub fn check() -> PropertyCheck {
             thorough: 4_000_000,
             strat,
             test,
+            max_shrink: 4000,
+        }),
+        Box::new(Pbt {
+            name: "e2e-faults",
+            quick: 40_000,
+            thorough: 1_500_000,
+            strat: super::c10::fault_strat,
+            test: faults_test,
             max_shrink: 4000,
         })],
     }
